@@ -1,6 +1,6 @@
 (* Extraction of the C10 model instance (package robust).  ExtrOcamlBasic only. *)
 Require Extraction.
 Require Import ExtrOcamlBasic.
-From DV Require Import Lib.Base Wire.Message Robust.Bus Robust.Env Robust.Mini.
+From DV Require Import Lib.Base Wire.Message Robust.Bus Robust.Env Robust.Mini Robust.Watch.
 Extraction Language OCaml.
-Extraction "model_robust.ml" mini_run mini_env_run mini_env_run_lim mkCfg.
+Extraction "model_robust.ml" mini_run mini_env_run mini_env_run_lim mkCfg iterate iterate_naive mkWatch.
